@@ -60,13 +60,13 @@ const (
 var posNames = []string{"while the loader runs", "after the loader returned, before the installation began", "racing with the installation"}
 
 type scenario struct {
-	Load  int `json:"load"`
-	Write int `json:"write"`
-	Pos   int `json:"pos"`
-	Exec  int `json:"exec"` // 0 sync 1 async
-	Rep   int `json:"rep"`
-	NotFound bool `json:"loader_reports_not_found"` // the load ends with "not found" instead of a value
-	Prelude  int  `json:"prelude,omitempty"`          // history before the scenario: 1/2 = a BulkGet whose loader volunteered that many unrequested keys, 3 = a failed load
+	Load     int  `json:"load"`
+	Write    int  `json:"write"`
+	Pos      int  `json:"pos"`
+	Exec     int  `json:"exec"` // 0 sync 1 async
+	Rep      int  `json:"rep"`
+	NotFound bool `json:"loader_reports_not_found"`        // the load ends with "not found" instead of a value
+	Prelude  int  `json:"prelude,omitempty"`               // history before the scenario: 1/2 = a BulkGet whose loader volunteered that many unrequested keys, 3 = a failed load
 	Expire   bool `json:"written_entry_expires,omitempty"` // expiry configured; the clock passes the written entry's deadline before the loader returns
 	Fail     bool `json:"loader_fails,omitempty"`          // the load ends with an error: nothing of it may reach the written entry (value, refresh time)
 }
@@ -74,9 +74,13 @@ type scenario struct {
 // c09Refresh makes every entry stale after 1 ns; a reload failure would postpone the next reload by an hour.
 type c09Refresh struct{}
 
-func (c09Refresh) RefreshAfterCreate(otter.Entry[int, int]) time.Duration      { return time.Nanosecond }
-func (c09Refresh) RefreshAfterUpdate(otter.Entry[int, int], int) time.Duration { return time.Nanosecond }
-func (c09Refresh) RefreshAfterReload(otter.Entry[int, int], int) time.Duration { return time.Nanosecond }
+func (c09Refresh) RefreshAfterCreate(otter.Entry[int, int]) time.Duration { return time.Nanosecond }
+func (c09Refresh) RefreshAfterUpdate(otter.Entry[int, int], int) time.Duration {
+	return time.Nanosecond
+}
+func (c09Refresh) RefreshAfterReload(otter.Entry[int, int], int) time.Duration {
+	return time.Nanosecond
+}
 func (c09Refresh) RefreshAfterReloadFailure(otter.Entry[int, int], error) time.Duration {
 	return time.Hour
 }
@@ -455,13 +459,13 @@ func witnessD8() (violation string, inconclusive string) {
 
 // stressC09: writers fire only while a loader for their key is inside.
 type c09Stress struct {
-	Seed uint64 `json:"seed"`
-	Keys int    `json:"keys"`
-	G    int    `json:"loaders"`
-	W    int    `json:"writers"`
-	Ops  int    `json:"ops"`
-	DelayPerM int `json:"delay_per_mille"`
-	Max  int    `json:"max"`
+	Seed      uint64 `json:"seed"`
+	Keys      int    `json:"keys"`
+	G         int    `json:"loaders"`
+	W         int    `json:"writers"`
+	Ops       int    `json:"ops"`
+	DelayPerM int    `json:"delay_per_mille"`
+	Max       int    `json:"max"`
 }
 
 type c09Load struct {
@@ -471,17 +475,17 @@ type c09Load struct {
 }
 
 type c09Write struct {
-	Key   int    `json:"key"`
-	Kind  string `json:"kind"`
-	Val   int    `json:"val"`
-	Call  int64  `json:"call"`
-	Ret   int64  `json:"ret"`
+	Key  int    `json:"key"`
+	Kind string `json:"kind"`
+	Val  int    `json:"val"`
+	Call int64  `json:"call"`
+	Ret  int64  `json:"ret"`
 }
 
 type c09Obs struct {
-	Key  int   `json:"key"`
-	Val  int   `json:"val"`
-	At   int64 `json:"at"` // call time of the read / entry time of the atomic handler / end
+	Key  int    `json:"key"`
+	Val  int    `json:"val"`
+	At   int64  `json:"at"` // call time of the read / entry time of the atomic handler / end
 	What string `json:"what"`
 }
 
